@@ -11,6 +11,10 @@
 (* LimiterLock = FALSE / StrategyLock = FALSE are the weakenings whose counterexample is the    *)
 (* attack schedule realised by the harness (TestGateAttack): caller 1 parked between check and  *)
 (* increment (hooks simple.afterCheck / precise.afterCheck), caller 2 admitted meanwhile.       *)
+(* Incr = "cas" and Gauge = "store" are two further weakenings (seeded changes C01r4, C02r4):   *)
+(* a completion is not behind the limiter mutex, so it can fall between an Acquire's check and   *)
+(* its increment, and an Acquire can fall between a completion's two give-backs; the harness     *)
+(* realises both (TestCompletionOverlap).                                                        *)
 EXTENDS Integers, FiniteSets, TLC
 
 CONSTANTS
@@ -20,6 +24,10 @@ CONSTANTS
   Direct,       \* TRUE: the strategy is used directly (no limiter mutex at all; precise strategy)
   LimiterLock,  \* FALSE: weakening - Acquire does not take the limiter mutex
   StrategyLock, \* TRUE: the strategy serialises check and increment itself (precise)
+  Incr,         \* "add": the increment is unconditional (as implemented); "cas": compare-and-swap against the count
+                \* loaded, refusing when it fails - a completion in between then refuses a caller with room
+  Gauge,        \* "add": Acquire increments the limiter's in-flight gauge (as implemented); "store": it publishes the
+                \* token's count - overwriting the decrement of a completion that is between gauge and token
   Rounds
 
 NoProc == "-"
@@ -32,13 +40,14 @@ VARIABLES
   mu,       \* limiter mutex holder
   smu,      \* strategy mutex holder (precise)
   inflight, limit,
+  gauge,    \* the limiter's own in-flight gauge (C02: one unit back per layer)
   maxForce, \* largest limit in force since the oldest outstanding grant (history)
   refusedAt \* history: [count, limit] of the last refusal decision, or <<>>
-vars == <<pc, loaded, rounds, mu, smu, inflight, limit, maxForce, refusedAt>>
+vars == <<pc, loaded, rounds, mu, smu, inflight, limit, gauge, maxForce, refusedAt>>
 
 Init ==
   /\ pc = [p \in P |-> "idle"] /\ loaded = [p \in P |-> 0] /\ rounds = [p \in P |-> 0]
-  /\ mu = NoProc /\ smu = NoProc /\ inflight = 0 /\ limit = Limit0 /\ maxForce = Limit0
+  /\ mu = NoProc /\ smu = NoProc /\ inflight = 0 /\ limit = Limit0 /\ maxForce = Limit0 /\ gauge = 0
   /\ refusedAt = <<>>
 
 UsesMu == ~Direct /\ LimiterLock
@@ -51,7 +60,7 @@ AcqLock(p) ==
   /\ mu' = IF UsesMu THEN p ELSE mu
   /\ smu' = IF StrategyLock THEN p ELSE smu
   /\ pc' = [pc EXCEPT ![p] = "locked"]
-  /\ UNCHANGED <<loaded, rounds, inflight, limit, maxForce, refusedAt>>
+  /\ UNCHANGED <<loaded, rounds, inflight, limit, gauge, maxForce, refusedAt>>
 
 Unlock(p) ==
   /\ mu' = IF mu = p THEN NoProc ELSE mu
@@ -65,23 +74,36 @@ Check(p) ==
      THEN /\ pc' = [pc EXCEPT ![p] = "idle"] /\ rounds' = [rounds EXCEPT ![p] = @ + 1]
           /\ refusedAt' = <<inflight, limit>> /\ Unlock(p)
      ELSE /\ pc' = [pc EXCEPT ![p] = "checked"] /\ UNCHANGED <<rounds, refusedAt, mu, smu>>
-  /\ UNCHANGED <<inflight, limit, maxForce>>
+  /\ UNCHANGED <<inflight, limit, gauge, maxForce>>
 
 Add(p) ==
   /\ pc[p] = "checked"
-  /\ inflight' = inflight + 1
-  /\ pc' = [pc EXCEPT ![p] = "held"]
+  /\ IF Incr = "cas" /\ inflight # loaded[p]
+     THEN \* the compare-and-swap lost to a completion (or a grant): refused on the spot
+          /\ pc' = [pc EXCEPT ![p] = "idle"] /\ rounds' = [rounds EXCEPT ![p] = @ + 1]
+          /\ refusedAt' = <<inflight, limit>>
+          /\ UNCHANGED <<inflight, gauge>>
+     ELSE /\ inflight' = inflight + 1
+          /\ gauge' = IF Gauge = "add" THEN gauge + 1 ELSE inflight + 1
+          /\ pc' = [pc EXCEPT ![p] = "held"]
+          /\ UNCHANGED <<rounds, refusedAt>>
   /\ Unlock(p)
-  /\ UNCHANGED <<loaded, rounds, limit, maxForce, refusedAt>>
+  /\ UNCHANGED <<loaded, limit, maxForce>>
 
-(* completion: gauge and token are given back outside the limiter mutex ... *)
-Release(p) ==
+(* completion: the gauge, then the strategy token, are given back outside the limiter mutex ... *)
+GaugeBack(p) ==
   /\ pc[p] = "held"
+  /\ gauge' = gauge - 1
+  /\ pc' = [pc EXCEPT ![p] = "gaugeback"]
+  /\ UNCHANGED <<loaded, rounds, mu, smu, inflight, limit, maxForce, refusedAt>>
+
+Release(p) ==
+  /\ pc[p] = "gaugeback"
   /\ StrategyLock => smu = NoProc
   /\ inflight' = inflight - 1
   /\ pc' = [pc EXCEPT ![p] = "released"]
   /\ maxForce' = IF inflight - 1 = 0 THEN limit ELSE maxForce
-  /\ UNCHANGED <<loaded, rounds, mu, smu, limit, refusedAt>>
+  /\ UNCHANGED <<loaded, rounds, mu, smu, limit, gauge, refusedAt>>
 
 (* ... then the sample is folded and the window may close: the algorithm reports a new estimate *)
 (* and the strategy's limit follows it, all under the limiter mutex                             *)
@@ -93,13 +115,15 @@ FoldUpdate(p) ==
        /\ limit' = Max(1, v)
        /\ maxForce' = IF inflight = 0 THEN Max(1, v) ELSE Max(maxForce, Max(1, v))
   /\ pc' = [pc EXCEPT ![p] = "idle"] /\ rounds' = [rounds EXCEPT ![p] = @ + 1]
-  /\ UNCHANGED <<loaded, mu, smu, inflight, refusedAt>>
+  /\ UNCHANGED <<loaded, mu, smu, inflight, gauge, refusedAt>>
 
-Next == \E p \in P : AcqLock(p) \/ Check(p) \/ Add(p) \/ Release(p) \/ FoldUpdate(p)
+Next == \E p \in P : AcqLock(p) \/ Check(p) \/ Add(p) \/ GaugeBack(p) \/ Release(p) \/ FoldUpdate(p)
 Spec == Init /\ [][Next]_vars
 
 NeverOver == inflight <= maxForce
 GrantHadRoom == [][\A p \in P : (pc[p] = "checked" /\ pc'[p] = "held") => inflight < limit]_vars
 RefusedAtLimit == refusedAt # <<>> => refusedAt[1] >= refusedAt[2]
 NonNegative == inflight >= 0
+(* C02: whenever no call is in the middle of taking or returning a unit, gauge and strategy count agree *)
+GaugeExact == (\A p \in P : pc[p] \in {"idle", "held", "released"}) => gauge = inflight
 =================================================================================
